@@ -502,7 +502,14 @@ fn gen_fault(rng: &mut Rng, st: &Steer, m: M, x: u8, y: u8) -> Option<Fault> {
         0 => {
             // matcher panic at a pattern no later than the first accepting one
             let pats = st.flat.of_method(m);
-            if pats.is_empty() || st.flat.ordered(m) {
+            if !pats.is_empty() && st.flat.ordered(m) {
+                // the matcher of the pattern owning the current slot
+                return match slot_owner(&st.flat, st.ordered_index) {
+                    Some(p) if p.m == m => Some(Fault::MatcherPanic { uid: p.uid }),
+                    _ => Some(Fault::ProgPanic { nth: 0, pos: rng.below(3) as u8 }),
+                };
+            }
+            if pats.is_empty() {
                 return Some(Fault::ProgPanic { nth: 0, pos: rng.below(3) as u8 });
             }
             let limit = match st.first_accepting(m, x, y) {
